@@ -106,7 +106,10 @@ func isFlag(name string) func(ssa.Value) bool {
 		if fv, _ := engine.LoadedField(v); fv != nil && fv.Name() == name {
 			return true
 		}
-		return isParam(lower)(v)
+		if isParam(lower)(v) {
+			return true
+		}
+		return false
 	}
 }
 
@@ -115,10 +118,14 @@ func keyClass(v ssa.Value) string {
 	src := engine.Provenance(v, engine.ProvOpts{})
 	tok, sec := false, false
 	for fv := range src.Fields {
-		switch fv.Name() {
-		case "Token":
+		// classes by what the field holds: the configuration fields are Token / SecretKey (Secretkey in the legacy
+		// structs); private copies of the secret (listenerBundle.sk, ClientCfg.sk) may be renamed, so any field whose
+		// name says "secret" (or the historical "sk") counts as the secret class
+		ln := strings.ToLower(fv.Name())
+		switch {
+		case ln == "token":
 			tok = true
-		case "SecretKey", "Secretkey", "sk":
+		case ln == "sk" || strings.Contains(ln, "secret"):
 			sec = true
 		}
 	}
@@ -180,18 +187,86 @@ func checkStacks(c *engine.Ctx, rule string) {
 			continue
 		}
 		enc, comp := encs[0], comps[0]
+		// a bool parameter (under any name) that is true on every path to a layer switches that layer; which declared
+		// flag it carries is decided at the call sites (rule b')
+		guardParam := func(call *ssa.Call) (int, *ssa.Parameter) {
+			for i, pr := range root.Params {
+				if b, ok := pr.Type().Underlying().(*types.Basic); !ok || b.Kind() != types.Bool {
+					continue
+				}
+				q := &engine.PathQuery{Fn: f, Sink: engine.Is(call), KeepLoopFacts: true}
+				states, err := q.Run()
+				if err != nil || len(states) == 0 {
+					continue
+				}
+				guards := true
+				for _, st := range states {
+					if v, k := st.Truth(func(x ssa.Value) bool { return engine.Unwrap(x) == ssa.Value(pr) || isCellOfParam(x, pr.Name()) }); !(k && v) {
+						guards = false
+					}
+				}
+				if guards {
+					return i, pr
+				}
+			}
+			return -1, nil
+		}
 		// (b) flags
 		for _, lc := range []struct {
 			call *ssa.Call
 			flag string
 		}{{enc, "UseEncryption"}, {comp, "UseCompression"}} {
 			lc := lc
+			_, gp := guardParam(lc.call)
 			c.AllPaths(name+">"+lc.flag, engine.PathCheck{Fn: f, Sink: engine.Is(lc.call), KeepLoopFacts: true, Pred: func(st *engine.PathState) string {
+				if gp != nil {
+					return ""
+				}
 				if v, k := st.Truth(isFlag(lc.flag)); !(k && v) {
 					return "the layer is applied on a path where " + lc.flag + " was not found true"
 				}
 				return ""
 			}}, "layer applied only under %s", lc.flag)
+		}
+		// (b') a flag that arrives as a parameter: every call site passes the matching declared flag (a bool pair
+		// crossed at one call site un-wraps the peer's stream with the wrong transform)
+		for _, lc := range []struct {
+			call *ssa.Call
+			flag string
+		}{{enc, "UseEncryption"}, {comp, "UseCompression"}} {
+			{
+				i, pr := guardParam(lc.call)
+				if pr == nil {
+					continue
+				}
+				robj, _ := root.Object().(*types.Func)
+				if robj == nil {
+					continue
+				}
+				other := "UseCompression"
+				if lc.flag == "UseCompression" {
+					other = "UseEncryption"
+				}
+				for _, g := range p.RepoFuncs() {
+					for _, cs := range engine.CallsTo(g, robj) {
+						if i >= len(cs.Common().Args) {
+							continue
+						}
+						src := engine.Provenance(cs.Common().Args[i], engine.ProvOpts{})
+						has, crossed := false, false
+						for fv := range src.Fields {
+							if fv.Name() == lc.flag {
+								has = true
+							}
+							if fv.Name() == other {
+								crossed = true
+							}
+						}
+						c.Check(has && !crossed, fmt.Sprintf("%s>%s-argument@%s", rname, lc.flag, p.FuncName(g)), cs.Pos(), 2, []string{"argument sources: " + src.Summary()},
+							"the parameter of %s that switches the %s layer receives the message's %s", rname, lc.flag, lc.flag)
+					}
+				}
+			}
 		}
 		// (c)(e)(consumers) per path: at every consumer of the wire stream
 		isConsumer := func(in ssa.Instruction) (ssa.Value, string) {
